@@ -1142,6 +1142,9 @@ class CanBeVaries(Element):
         if self.__class__ == CanBeVaries:
             raise OperationNotAllowed("Cannot instantiate a CanBeVaries")
 
+        if validation_level is None:  # the checks below are about the level the element is going to have
+            validation_level = get_default_validation_level()
+
         if datatype == 'varies' and reference is None:
             reference = ('leaf', None, 'varies', None, None, -1)
 
@@ -1367,6 +1370,9 @@ class Component(SupportComplexDataType, CanBeVaries):
 
         SupportComplexDataType.__init__(self)
 
+        if validation_level is None:  # the checks below are about the level the element is going to have
+            validation_level = get_default_validation_level()
+
         # if datatype == 'varies' and reference is None:
         #     reference = ('leaf', None, 'varies', None, None, -1)
 
@@ -1474,6 +1480,9 @@ class Field(SupportComplexDataType):
                  version=None, validation_level=None, traversal_parent=None):
 
         SupportComplexDataType.__init__(self)
+
+        if validation_level is None:  # the checks below are about the level the element is going to have
+            validation_level = get_default_validation_level()
 
         if name is None and Validator.is_strict(validation_level) and datatype != 'varies':
             raise OperationNotAllowed("Cannot instantiate an unknown Element with strict validation")
